@@ -841,19 +841,19 @@ def check_grid_numpy_scalars(case):
 # --------------------------------------------------------------------------------------
 SUBCHECKS = [
     SubCheck("grid_roundtrips", strategy=grid_cases, check=check_grid_roundtrips, mode="pure",
-             budget={"quick": 4000, "thorough": 80000}, shards={"quick": 4, "thorough": 6},
+             budget={"quick": 6000, "thorough": 80000}, shards={"quick": 4, "thorough": 6},
              rule="non-trivial = hole, periodic axis, negative lower bound or curvilinear grid; 12 routes per case"),
     SubCheck("field_roundtrip", strategy=field_cases, check=check_field_roundtrip, mode="pure",
-             budget={"quick": 2500, "thorough": 40000}, shards={"quick": 3, "thorough": 3},
+             budget={"quick": 4000, "thorough": 40000}, shards={"quick": 3, "thorough": 3},
              rule="non-trivial = hole or periodic or rank >= 1 on a symmetric grid or complex dtype"),
     SubCheck("collection_roundtrip", strategy=collection_cases, check=check_collection_roundtrip, mode="pure",
-             budget={"quick": 2000, "thorough": 40000}, shards={"quick": 3, "thorough": 3},
+             budget={"quick": 3000, "thorough": 40000}, shards={"quick": 3, "thorough": 3},
              rule="non-trivial = hole or periodic or rank >= 1 on a symmetric grid or complex dtype"),
     SubCheck("from_data", strategy=from_data_cases, check=check_from_data, mode="pure",
-             budget={"quick": 2500, "thorough": 40000}, shards={"quick": 3, "thorough": 3},
+             budget={"quick": 4000, "thorough": 40000}, shards={"quick": 3, "thorough": 3},
              rule="non-trivial = hole or periodic or rank >= 1 on a symmetric grid or complex dtype"),
     SubCheck("storage_attributes", strategy=storage_cases, check=check_storage_attributes, mode="pure",
-             budget={"quick": 1200, "thorough": 20000}, shards={"quick": 2, "thorough": 1},
+             budget={"quick": 2000, "thorough": 20000}, shards={"quick": 2, "thorough": 1},
              rule="non-trivial = hole or periodic or rank >= 1 on a symmetric grid or complex dtype"),
     SubCheck("grid_numpy_scalars", strategy=numpy_scalar_cases, check=check_grid_numpy_scalars, mode="pure",
              budget={"quick": 60, "thorough": 300}, shards={"quick": 1, "thorough": 1},
